@@ -1,5 +1,5 @@
 (* Properties/C16.v — Upload and choking discipline. *)
-From Storrent Require Import Base.Bytes Base.Bencode Model.Wire Model.PeerCore Proof.PeerCore Proof.Sent.
+From Storrent Require Import Base.Bytes Base.Bencode Model.Wire Model.PeerCore Proof.PeerCore Proof.Sent Proof.ReqOutcome.
 Open Scope N_scope.
 
 (* In every state reachable from a fresh peer by ANY history of remote messages,
@@ -42,3 +42,22 @@ Theorem c16_piece_only_from_upload : forall s ballast o k i b d,
   In (Piece i b d) (a_msgs (fst (step s ballast o k))) -> exists allow data, o = OpUpload allow data.
 Proof. exact piece_only_from_upload. Qed.
 Print Assumptions c16_piece_only_from_upload.
+
+(* The fate of a Request from the remote peer, from ANY state: either it is refused — the queue of
+   pending uploads is left as it was and at most a RejectRequest with the request's own fields is
+   written, and only to a peer with the fast extension — or (we are unchoking the peer, the block
+   is at most 128 KiB) it is appended to the queue, after the oldest pending request has been given
+   up, and rejected likewise, when 250 were pending.  Nothing else is written: never a Piece. *)
+Theorem c16_request_outcome : forall s ballast i b l ad k,
+  let r := step s ballast (OpMsg (Request i b l) ad) k in
+  let a := fst r in
+  let req := {| u_index := i; u_begin := b; u_length := l |} in
+  (s_requested (a_st a) = s_requested s /\
+   (a_msgs a = [] \/ (s_can_fast s = true /\ a_msgs a = [RejectRequest i b l]))) \/
+  (s_am_unchoking s = true /\ l <= max_request_length /\
+   ((s_requested (a_st a) = s_requested s ++ [req] /\ a_msgs a = []) \/
+    (exists h t, s_requested s = h :: t /\ upload_queue_max <= llen (s_requested s) /\
+       (s_requested (a_st a) = t ++ [req] \/ (snd r = VDisconnect /\ s_requested (a_st a) = t)) /\
+       (a_msgs a = [] \/ (s_can_fast s = true /\ a_msgs a = [RejectRequest (u_index h) (u_begin h) (u_length h)]))))).
+Proof. exact request_outcome. Qed.
+Print Assumptions c16_request_outcome.
